@@ -315,6 +315,10 @@ func QualifierParser(prefix string) pars.Parser {
 		}
 
 		value := string(result.Token)
+		if GetQualifierType(name) == ToggleQualifier {
+			// A toggle has no value; the token is only the line terminator.
+			value = ""
+		}
 		result.SetValue(QualifierIO{name, value})
 		return nil
 	}
